@@ -52,6 +52,8 @@ func runC15(c *core.Ctx) {
 	c.RuleDoc("R15.13", "records of the in-memory store are immutable once stored")
 	c.RuleDoc("R15.14", "a handle mutates the content blob it loaded, never a view of it taken outside the blob's critical section")
 	c.RuleDoc("R15.15", "a callback of a concurrent map's Range writes no slice element at an index the dominating guards do not bound by the slice's length")
+	c.RuleDoc("R15.16", "no handle slices the byte slice of the shared content blob with computed bounds (bounds are checked by the blob, under its mutex)")
+	c.RuleDoc("R15.17", "no operation of an in-memory transaction releases a mutex it did not take (the store stays locked from Transaction() to Commit/Abort)")
 	c.RuleDoc("R15.12", "no method of the slice-backed blob returns with its mutex held (= R19.13)")
 	c.RuleDoc("R15.11", "the amount a handle grows its content by is read in the critical section that grows (known finding)")
 	c.RuleDoc("R15.8", "no call that can take another lock while a blob's mutex is held (= R19.4)")
@@ -76,6 +78,8 @@ func runC15(c *core.Ctx) {
 		r15RecordsImmutable(c, p)
 		r15MutateTheSharedBlob(c, p)
 		r15RangeCallbacksAppend(c, p, "mem", "mount")
+		r15NoRawBytesWindow(c, p)
+		r15OpsKeepTheStoreLocked(c, p, "R15.17")
 		if p.Target == load.Linux {
 			r15GrowFromStaleLength(c, p)
 		}
@@ -110,6 +114,8 @@ func runC15(c *core.Ctx) {
 	c.Floor("R15.13", 1)
 	c.Floor("R15.14", 4)
 	c.Floor("R15.15", 3)
+	c.Floor("R15.16", 1)
+	c.Floor("R15.17", 4)
 }
 
 func r15Guard(c *core.Ctx, p *load.Program, g guardSpec) {
@@ -947,4 +953,101 @@ func sameCellLoad(a, b ssa.Value) bool {
 	ua, ok1 := a.(*ssa.UnOp)
 	ub, ok2 := b.(*ssa.UnOp)
 	return ok1 && ok2 && ua.X == ub.X
+}
+
+// r15NoRawBytesWindow (R15.16): package keyvalue never slices the result of a blob's Bytes() with non-constant
+// bounds. The bounds would come from an earlier Len() — a separate critical section — and another handle that
+// truncates the file in between turns the read into a "slice bounds out of range" panic; blob.View / blob.Slice check
+// the bounds and slice under one lock. Sites without any such slice discharge the rule once per function that calls Bytes().
+func r15NoRawBytesWindow(c *core.Ctx, p *load.Program) {
+	blobI := ifaceOf(p, "keyvalue/blob", "Blob")
+	for _, fn := range pkgFuncs(p, "keyvalue") {
+		ord := ordinals{}
+		ssax.Instrs(fn, func(ins ssa.Instruction) {
+			cl, ok := ins.(*ssa.Call)
+			if !ok {
+				return
+			}
+			m := ssax.InvokeMethod(cl)
+			if m == nil || m.Name() != "Bytes" || blobI == nil || !types.Implements(cl.Call.Value.Type(), blobI) {
+				return
+			}
+			key := fname(fn) + "|" + ord.next("blob-bytes")
+			bad := ""
+			if cl.Referrers() != nil {
+				for _, r := range *cl.Referrers() {
+					if sl, ok := r.(*ssa.Slice); ok && sl.X == ssa.Value(cl) {
+						_, lc := constOrNil(sl.Low)
+						_, hc := constOrNil(sl.High)
+						if !lc || !hc {
+							bad = p.Pos(sl.Pos())
+						}
+					}
+				}
+			}
+			c.Check(bad == "", "R15.16", key, p.Pos(cl.Pos()), "the blob's bytes are not re-sliced with computed bounds",
+				fmt.Sprintf("%s slices the result of the content blob's Bytes() at %s with computed bounds: the bounds come from an earlier Len(), another handle can shrink the file in between, and the read panics with 'slice bounds out of range' instead of returning — blob.View/blob.Slice check and slice under the blob's own lock", fname(fn), bad))
+		})
+	}
+}
+
+// r15OpsKeepTheStoreLocked (R15.17 / R18.10): from Get/GetHandler/Set/SetHandler of every transaction type of package
+// mem (and the module functions they call, three levels) no Unlock/RUnlock is reachable that is not dominated by the
+// matching Lock in the same function: an operation that releases the store mutex around its handler ("a handler is
+// the caller's code") lets another transaction in between the operations of one rename — the file is visible under
+// both names, a state no sequential order has.
+func r15OpsKeepTheStoreLocked(c *core.Ctx, p *load.Program, rule string) {
+	txnI := ifaceOf(p, "keyvalue", "Transaction")
+	if txnI == nil {
+		c.Hard("anchor: keyvalue.Transaction")
+		return
+	}
+	for _, n := range implementers(p, txnI) {
+		tk := typeKey(n)
+		if !strings.HasPrefix(tk, "mem.") {
+			continue
+		}
+		ms := methodsOf(p, n)
+		for _, mn := range txnOpMethods {
+			fn := ms[mn]
+			if fn == nil {
+				continue
+			}
+			bad := ""
+			seen := map[*ssa.Function]bool{}
+			var visit func(f *ssa.Function, d int)
+			visit = func(f *ssa.Function, d int) {
+				if f == nil || seen[f] || f.Blocks == nil || d > 3 || !p.InModule(f) {
+					return
+				}
+				seen[f] = true
+				ssax.Instrs(f, func(ins ssa.Instruction) {
+					ci, ok := ins.(ssa.CallInstruction)
+					if !ok {
+						return
+					}
+					if op, path := ssax.MutexOp(ci); op == ssax.OpUnlock || op == ssax.OpRUnlock {
+						taken := false
+						ssax.Instrs(f, func(j ssa.Instruction) {
+							if cj, ok := j.(ssa.CallInstruction); ok {
+								if _, isDefer := j.(*ssa.Defer); isDefer {
+									return
+								}
+								if op2, path2 := ssax.MutexOp(cj); (op2 == ssax.OpLock || op2 == ssax.OpRLock) && path2 == path && ssax.Dominates(j, ins) {
+									taken = true
+								}
+							}
+						})
+						if !taken && bad == "" {
+							bad = fname(f) + " at " + p.Pos(ins.Pos())
+						}
+					}
+					visit(ssax.StaticCallee(ci), d+1)
+				})
+			}
+			visit(fn, 0)
+			c.Check(bad == "", rule, tk+"."+mn+"|keeps-the-store-locked", p.Pos(fn.Pos()), "no release of a mutex it did not take is reachable from the operation",
+				fmt.Sprintf("%s reaches an Unlock of a mutex the function did not lock (%s): the store mutex taken by Transaction() is given up in the middle of the transaction — another goroutine's transaction runs between two operations of this one and sees (or overwrites) its partial effects; a file rename shows the file under both names", fname(fn), bad))
+		}
+	}
 }
